@@ -13,7 +13,17 @@ namespace {
 void sched_report(const char* label, const std::string& msg) { pbt::fatal(label, msg); }
 } // namespace
 
-PBT_PROPERTY(ps5_sched) {
+#ifdef C04_REAL_THREADS
+#define C04_MAIN_TARGET ps5_real
+#define C04_MAX_N 3000
+#else
+#define C04_MAIN_TARGET ps5_sched
+#define C04_MAX_N 120
+#endif
+#define C04_PROP2(n) PBT_PROPERTY(n)
+#define C04_PROP(n) C04_PROP2(n)
+
+C04_PROP(C04_MAIN_TARGET) {
     auto& cfgs = c04::configs();
     std::sort(cfgs.begin(), cfgs.end(), [](const c04::Config& a, const c04::Config& b) { return strcmp(a.info.name, b.info.name) < 0; });
     size_t ci = src.index(cfgs.size());
@@ -21,7 +31,7 @@ PBT_PROPERTY(ps5_sched) {
     unsigned hw = (unsigned)src.range(1, 6);
     const c04::Config& cfg = cfgs[ci];
     c04::Input in;
-    c04::gen_input(src, in, 120, cfg.info.keybytes);
+    c04::gen_input(src, in, src.chance(40) ? C04_MAX_N : 120, cfg.info.keybytes);
     PBT_LOG("params " << cfg.info.name << " lcp=" << with_lcp << " workers=" << hw << "\n");
     c04::describe(in);
     pbt::label(in.shape);
@@ -37,7 +47,9 @@ PBT_PROPERTY(ps5_sched) {
     bool big = hw >= 2 && in.strs.size() > cfg.info.smallsort_threshold;
     if (big) pbt::label("parallel_big_step");
     if (big && distinct >= 2) pbt::nontrivial();
+#ifndef C04_REAL_THREADS
     PBT_LOG("steps=" << vsched::S().steps << " switches=" << vsched::S().switches << "\n");
+#endif
 }
 
 // public API, default parameters (small inputs take the sequential small-sort job on one worker)
@@ -49,12 +61,14 @@ PBT_PROPERTY(ps5_public_small) {
     c04::gen_input(src, in, 200, 8);
     c04::describe(in);
     pbt::label(in.shape);
-    vsched::Thread::hw() = hw;
+    tlx::std::thread::hw() = hw;
     tlx::std::minstd_rand::forced_seed() = 1 + (unsigned)src.range(0, 250);
     {
+#ifndef C04_REAL_THREADS
         vsched::Options opt;
         opt.livelock_rounds = 0;
         vsched::Run run(src, opt);
+#endif
         size_t n = in.ptrs.size();
         switch (variant) {
         case 0:
@@ -80,3 +94,49 @@ PBT_PROPERTY(ps5_public_small) {
     c04::check_output(in, with_lcp, sched_report);
     if (in.strs.size() >= 2) pbt::nontrivial();
 }
+
+#ifdef C04_REAL_THREADS
+// public API, DEFAULT parameters, n slightly above 2^20 so that the parallel big step (and, for
+// prefix-heavy inputs, nested big steps and "no sub-job" buckets) is reached. Pointers to a handful
+// of short distinct strings: cheap. Real threads.
+PBT_PROPERTY(ps5_public_big) {
+    bool with_lcp = src.boolean();
+    unsigned hw = (unsigned)src.range(2, 8);
+    int shape = (int)src.range(0, 3);
+    uint64_t seed = src.bits(4) + 1;
+    size_t n = (1u << 20) + 1 + (size_t)src.range(0, 3000);
+    if (shape == 3) n = (1u << 21) + 300000 + (size_t)src.range(0, 1000);
+    // few distinct strings
+    std::vector<std::string> pool;
+    size_t npool = shape == 0 ? 3 : shape == 1 ? 1 : (size_t)src.range(2, 40);
+    std::string prefix = shape >= 2 ? std::string((size_t)src.range(0, 12), 'p') : std::string();
+    for (size_t i = 0; i < npool; ++i) {
+        std::string s = prefix;
+        size_t l = (size_t)src.range(0, 10);
+        for (size_t j = 0; j < l; ++j) s += (char)('a' + src.range(0, 2));
+        pool.push_back(s);
+    }
+    c04::Input in;
+    in.shape = "big";
+    in.strs = pool;
+    auto next = [&seed]() {
+        seed ^= seed << 13;
+        seed ^= seed >> 7;
+        seed ^= seed << 17;
+        return seed;
+    };
+    in.ptrs.resize(n);
+    // shape 3: more than half of the strings share one 8-byte-or-longer prefix -> nested big step
+    for (size_t i = 0; i < n; ++i) in.ptrs[i] = reinterpret_cast<unsigned char*>(&in.strs[(size_t)(next() % npool)][0]);
+    in.orig.assign(in.ptrs.begin(), in.ptrs.end());
+    in.lcp.assign(n + 1, c04::POISON);
+    PBT_LOG("big n=" << n << " pool=" << npool << " prefix=" << prefix.size() << " workers=" << hw << " lcp=" << with_lcp << "\n");
+    tlx::std::thread::hw() = hw;
+    tlx::std::minstd_rand::forced_seed() = 1 + (unsigned)src.range(0, 250);
+    if (with_lcp) tlx::sort_strings_parallel_lcp(in.ptrs.data(), n, in.lcp.data(), 0);
+    else tlx::sort_strings_parallel(in.ptrs.data(), n, 0);
+    c04::check_output(in, with_lcp, sched_report);
+    pbt::label(with_lcp ? "lcp" : "nolcp");
+    if (npool >= 2) pbt::nontrivial();
+}
+#endif
